@@ -64,7 +64,9 @@ def install():
     import jesse.helpers as jh
     import jesse.modes.backtest_mode as bm
     import jesse.store.state_app as state_app
-    import jesse.strategies.Strategy as strat_mod
+    import sys as _sys
+    import jesse.strategies  # noqa
+    strat_mod = _sys.modules['jesse.strategies.Strategy']
     from jesse.models import Order
     from jesse.store.state_candles import CandlesState
 
@@ -143,6 +145,49 @@ def install():
     Order.__init__ = order_init
     Order.execute = order_execute
     Order.cancel = order_cancel
+
+    # ---------------------------------------------------------------- request attribution (C10)
+    from jesse.services.broker import Broker
+    Strat = strat_mod.Strategy
+    ORIG['_submit_buy_orders'] = Strat._submit_buy_orders
+    ORIG['_submit_sell_orders'] = Strat._submit_sell_orders
+    ORIG['reduce_position_at'] = Broker.reduce_position_at
+
+    def _submit_buy_orders(self):
+        c = C.cur()
+        if c is None or not c.in_session:
+            return ORIG['_submit_buy_orders'](self)
+        c.dispatch('entries_begin', self, 'buy')
+        try:
+            return ORIG['_submit_buy_orders'](self)
+        finally:
+            c.dispatch('entries_end', self, 'buy')
+
+    def _submit_sell_orders(self):
+        c = C.cur()
+        if c is None or not c.in_session:
+            return ORIG['_submit_sell_orders'](self)
+        c.dispatch('entries_begin', self, 'sell')
+        try:
+            return ORIG['_submit_sell_orders'](self)
+        finally:
+            c.dispatch('entries_end', self, 'sell')
+
+    def reduce_position_at(self, qty, price, current_price):
+        c = C.cur()
+        if c is None or not c.in_session:
+            return ORIG['reduce_position_at'](self, qty, price, current_price)
+        c.dispatch('reduce_begin', self, qty, price, current_price)
+        o = None
+        try:
+            o = ORIG['reduce_position_at'](self, qty, price, current_price)
+            return o
+        finally:
+            c.dispatch('reduce_end', self, qty, price, current_price, o)
+
+    Strat._submit_buy_orders = _submit_buy_orders
+    Strat._submit_sell_orders = _submit_sell_orders
+    Broker.reduce_position_at = reduce_position_at
 
     # ---------------------------------------------------------------- candle feed (feed horizon)
     ORIG['add_candle'] = CandlesState.add_candle
